@@ -55,6 +55,10 @@ def case(spec) -> tuple:
     from hpl.ast.predicates import HplPredicateExpression
     from hpl.rewrite import split_and
     from hpl.types import DataType
+    composed = False
+    if spec[0] == 'simplified':  # split_and applied to the OUTPUT of simplify (literals built by the library, not by the parser)
+        composed = True
+        spec = spec[1]
     ast, note = rw.build_or_none(spec)
     if ast is None:
         return ('illtyped', note, None, None)
@@ -66,9 +70,19 @@ def case(spec) -> tuple:
         try:
             cond = HplPredicateExpression(ast).condition  # root cast to BOOL, as the parser does
         except TypeError:
-            return ('illtyped', 'predicate', None, None)
-    text = str(cond)
-    rep = {'kind': 'split_and', 'spec': spec, 'text': text}
+            if not composed:
+                return ('illtyped', 'predicate', None, None)
+            cond = ast  # the expression parser does not unify reference types: such trees reach simplify/split_and through hpl.parser.expression_parser
+    if composed:
+        from hpl.rewrite import simplify
+        try:
+            cond = simplify(cond)
+        except Exception:
+            return ('illtyped', 'simplify raised', None, None)
+        if sem.kind(cond) == 'HplLiteral':
+            return ('illtyped', 'literal', None, None)
+    text = ('simplify: ' if composed else '') + str(cond)
+    rep = {'kind': 'split_and', 'spec': ('simplified', spec) if composed else spec, 'text': text}
     try:
         parts = split_and(cond)
     except ValueError as e:
@@ -117,6 +131,29 @@ def main() -> int:
     n_rand = 2000 if ck.tier == 'quick' else 30000
     rnd = [s for s in families.random_specs(ck.seed + 9, n_rand * 2, 4 if ck.tier == 'quick' else 5)]
     fams['random(seed)'] = families.uniq(rnd)[:n_rand]
+    comp = []
+    sfam = families.simplify_families('quick')
+    for k in ('strings', 'calls', 'quantifiers', 'inclusion', 'logic-nests'):
+        comp += sfam[k][:: (2 if ck.tier == 'quick' else 1)]
+    S_, X_ = ('f', 's'), ('f', 'x')
+    for a in (('call', 'str', ('lit', 1)), ('call', 'str', ('lit', True)), ('call', 'str', ('str', 'b')), ('call', 'str', ('bin', '+', ('lit', 1), ('lit', 1)))):
+        for b in (('lit', 1), ('f', 'b'), ('str', '1'), ('lit', True), ('lit', 2)):
+            for v in (S_, X_):
+                comp += [('bin', 'and', ('bin', '=', v, a), ('bin', '=', v, b)), ('bin', 'and', ('bin', '!=', v, a), ('bin', 'and', ('f', 'p'), ('bin', '!=', v, b)))]
+    fams['after-simplify'] = [('simplified', s_) for s_ in families.uniq(comp)]
+    # string literals as the API builds them (HplLiteral.string: token without quotes, so "b" prints like the field b)
+    api = []
+    for name in ('b', 'p', 's'):
+        A, Fb = ('apistr', name), ('f', name)
+        for v in (S_, ('f', 'b'), ('fa', ('var', 'A'), 's')):
+            if v == Fb:
+                continue
+            api += [('bin', 'and', ('bin', '=', v, A), ('bin', '=', v, Fb)), ('bin', 'and', ('bin', '=', v, Fb), ('bin', '=', v, A)),
+                    ('bin', 'and', ('bin', '!=', v, A), ('bin', 'and', ('f', 'p'), ('bin', '!=', v, Fb))),
+                    ('not', ('bin', 'or', ('bin', '=', v, A), ('bin', '=', v, Fb))),
+                    ('bin', 'and', ('bin', 'in', v, ('set', A)), ('bin', 'in', v, ('set', Fb))),
+                    ('bin', 'and', ('bin', '=', v, A), ('bin', '=', v, ('str', name)))]
+    fams['api-built-string-literals'] = families.uniq(api)
     total, nontrivial = rw.run_cases(ck, fams, worker, 'EQ', K)
     ck.bound('trees', f'{total}: exhaustive propositional trees of depth <= 3 over 6-8 atoms, quantifiers (forall/exists) over array/set/literal range/'
              f'symbolic range domains with bodies of depth <= 2, wrapped and nested; + seeded random trees')
